@@ -555,7 +555,7 @@ example : PosInv exMig ∧ TwinInv exMig := ⟨witness_commitInv.pos, witness_co
 
 /-- a bounded run that creates a cluster -/
 def exOps : List Op :=
-  [.addProxy "p0:1" "n0" "n1" (some "h0"), .addProxy "p1:1" "n2" "n3" (some "h1"),
+  [.addProxy "p0:1" "n0" "n1" (some "h0") none, .addProxy "p1:1" "n2" "n3" (some "h1") none,
    .addCluster "c" 4 [("p0:1", "p1:1")]]
 
 theorem witness_exOps_bound : ∀ k, Plan.PlanBound (run (exOps.take k)) := by
@@ -580,5 +580,36 @@ example : ∃ c ∈ (run exOps).clusters, MigPre c ∧ ∃ N, 0 < N ∧ ∀ k, k
   have hs := reachableB_run exOps witness_exOps_bound
   obtain ⟨N, hN, _, _, hd⟩ := C10_reachable_downPre hs hc
   exact ⟨c, hc, C10_reachable_migPre hs hc, N, hN, hd⟩
+
+/-! ## ordered-proxy mode
+
+`ReachableB` / `run` contain the histories of a broker started with `enable_ordered_proxy = true`
+(they start with `Op.setOrdered`); the scaling theorems hold for them verbatim (the planner and
+`commit_migration` do not read the mode; allocation is by proxy index). -/
+
+/-- an ordered-mode run: cluster on the proxies with indices 0,1 (same host), scale-out onto 2,3 -/
+def ordOps : List Op :=
+  [.setOrdered,
+   .addProxy "p0:1" "n0" "n1" (some "h0") (some 0), .addProxy "p1:1" "n2" "n3" (some "h0") (some 1),
+   .addProxy "p2:1" "n4" "n5" (some "h0") (some 2), .addProxy "p3:1" "n6" "n7" (some "h0") (some 3),
+   .addCluster "c" 4 [("p0:1", "p1:1")], .addNodes "c" 4 [("p2:1", "p3:1")]]
+
+theorem witness_ordOps_bound : ∀ k, Plan.PlanBound (run (ordOps.take k)) := by
+  have hsmall : ∀ k, k < 8 → ∀ c ∈ (run (ordOps.take k)).clusters, c.chunks.length * 2 ≤ SLOT_NUM := by
+    decide +kernel
+  intro k
+  by_cases hk : k < 8
+  · exact hsmall k hk
+  · have : ordOps.take k = ordOps.take 7 := by
+      rw [List.take_of_length_le (by simp [ordOps]; omega), List.take_of_length_le (by simp [ordOps])]
+    rw [this]; exact hsmall 7 (by omega)
+
+example : (run ordOps).ordered = true ∧ (run ordOps).clusters.map (·.chunks.length) = [2] := by decide +kernel
+
+example : ∃ c ∈ (run ordOps).clusters, c.isMigrating = false ∧ Balanced c := by
+  have hne : (run ordOps).clusters ≠ [] := by decide +kernel
+  obtain ⟨c, hc⟩ := List.exists_mem_of_ne_nil _ hne
+  have hidle : ∀ c ∈ (run ordOps).clusters, c.isMigrating = false := by decide +kernel
+  exact ⟨c, hc, hidle c hc, C10_reachable_balanced_run ordOps witness_ordOps_bound hc (hidle c hc)⟩
 
 end Um.Broker.C10
